@@ -2,6 +2,7 @@
 C35 — helper lemmas for `RadixModel/Model/IntentTree.lean`.
 -/
 import RadixModel.Model.IntentTree
+import Batteries.Data.List.Perm
 
 namespace Radix.IntentTree
 
@@ -538,5 +539,189 @@ theorem step4_ok {m : List Details} (h : step4 m = .ok ()) : ∀ e ∈ m, e.dept
     intro e he h0
     have := List.find?_eq_none.mp hf e he
     simp [h0] at this
+
+/-! ### Step 3 — termination of the work list -/
+
+/-- children still to be pushed: those of the entries without a depth mark -/
+def pendingOf (m : List Details) : List Nat :=
+  (m.filter (fun e => e.depth == 0)).flatMap (·.children)
+
+/-- everything the loop will still pop -/
+def pending (m : List Details) (wl : List (Nat × Nat)) : List Nat := wl.map (·.1) ++ pendingOf m
+
+structure TInv (m : List Details) (wl : List (Nat × Nat)) : Prop where
+  nodup : (pending m wl).Nodup
+  unvisited : ∀ x ∈ pending m wl, ∃ e, m[x]? = some e ∧ e.depth = 0
+  depthPos : ∀ x ∈ wl, 1 ≤ x.2
+
+theorem pendingOf_append (a b : List Details) : pendingOf (a ++ b) = pendingOf a ++ pendingOf b := by
+  simp [pendingOf]
+
+theorem pendingOf_cons_unvisited (e : Details) (b : List Details) (h : e.depth = 0) :
+    pendingOf (e :: b) = e.children ++ pendingOf b := by
+  simp [pendingOf, h]
+
+theorem pendingOf_cons_visited (e : Details) (b : List Details) (h : e.depth ≠ 0) :
+    pendingOf (e :: b) = pendingOf b := by
+  simp [pendingOf, h]
+
+/-- marking entry `i` (unvisited, with a non-zero depth) removes exactly its children from the
+pending children -/
+theorem pendingOf_set {m : List Details} {i : Nat} (hi : i < m.length) (h0 : m[i].depth = 0)
+    {d : Nat} (hd : d ≠ 0) :
+    pendingOf m = pendingOf (m.take i) ++ m[i].children ++ pendingOf (m.drop (i + 1))
+    ∧ pendingOf (m.set i { m[i] with depth := d }) = pendingOf (m.take i) ++ pendingOf (m.drop (i + 1)) := by
+  constructor
+  · have hm : m = m.take i ++ (m[i] :: m.drop (i + 1)) := by
+      rw [← List.drop_eq_getElem_cons hi, List.take_append_drop]
+    conv => lhs; rw [hm]
+    rw [pendingOf_append, pendingOf_cons_unvisited _ _ h0, List.append_assoc]
+  · rw [List.set_eq_take_append_cons_drop]
+    simp only [hi, if_true]
+    rw [pendingOf_append, pendingOf_cons_visited _ _ (by simpa using hd)]
+
+theorem nodup_of_map {α β : Type} (f : α → β) {l : List α} (h : (l.map f).Nodup) : l.Nodup := by
+  simp only [List.Nodup, List.pairwise_map] at h
+  exact h.imp (fun {a b} hab e => hab (by rw [e]))
+
+theorem walk_terminates (maxDepth : Nat) :
+    ∀ (fuel : Nat) (m : List Details) (wl : List (Nat × Nat)),
+      TInv m wl → (pending m wl).length < fuel →
+      walk maxDepth fuel m wl ≠ .error .outOfFuel ∧ walk maxDepth fuel m wl ≠ .error .panic := by
+  intro fuel
+  induction fuel with
+  | zero => intro m wl _ h; omega
+  | succ fuel ih =>
+    intro m wl inv hlen
+    cases wl with
+    | nil => simp [walk]
+    | cons x wl =>
+      obtain ⟨i, d⟩ := x
+      have hmem : i ∈ pending m ((i, d) :: wl) := by simp [pending]
+      obtain ⟨e, hme, he0⟩ := inv.unvisited i hmem
+      obtain ⟨hi, hei⟩ := List.getElem?_eq_some_iff.mp hme
+      simp only [walk, hme]
+      by_cases hgt : d > maxDepth
+      · simp [hgt]
+      · simp only [hgt, if_false]
+        have hd1 : 1 ≤ d := inv.depthPos (i, d) (List.mem_cons_self)
+        have h0 : m[i].depth = 0 := by rw [hei]; exact he0
+        obtain ⟨hp1, hp2⟩ := pendingOf_set hi h0 (d := d) (by omega)
+        rw [hei] at hp1 hp2
+        -- the old pending list is `i ::` a permutation of the new one
+        have hperm : (pending m ((i, d) :: wl)).Perm
+            (i :: pending (m.set i { e with depth := d }) (pushChildren e.children (d + 1) wl)) := by
+          simp only [pending, pushChildren, List.map_cons, List.map_append, List.map_reverse, List.map_map,
+            List.cons_append]
+          refine List.Perm.cons i ?_
+          rw [hp1, hp2]
+          have hmapfst : List.map ((fun x : Nat × Nat => x.1) ∘ fun c => (c, d + 1)) e.children = e.children := by
+            simp [Function.comp_def]
+          rw [hmapfst]
+          -- wl ++ (A ++ C ++ B)  ~  (rev C ++ wl) ++ (A ++ B)
+          have h1 : (e.children.reverse ++ List.map (fun x => x.1) wl ++ (pendingOf (List.take i m) ++ pendingOf (List.drop (i + 1) m))).Perm
+              (e.children ++ (List.map (fun x => x.1) wl ++ (pendingOf (List.take i m) ++ pendingOf (List.drop (i + 1) m)))) := by
+            rw [List.append_assoc]
+            exact List.Perm.append_right _ (List.reverse_perm _)
+          refine List.Perm.trans ?_ h1.symm
+          -- move C to the front
+          have h2 : (pendingOf (List.take i m) ++ e.children ++ pendingOf (List.drop (i + 1) m)).Perm
+              (e.children ++ (pendingOf (List.take i m) ++ pendingOf (List.drop (i + 1) m))) := by
+            rw [List.append_assoc, ← List.append_assoc e.children]
+            exact List.Perm.trans (List.perm_append_comm_assoc _ _ _) (by rw [List.append_assoc])
+          refine List.Perm.trans (List.Perm.append_left _ h2) ?_
+          exact List.perm_append_comm_assoc _ _ _
+        have hnd := (hperm.nodup_iff).mp inv.nodup
+        have hni : i ∉ pending (m.set i { e with depth := d }) (pushChildren e.children (d + 1) wl) :=
+          (List.nodup_cons.mp hnd).1
+        have hlen' : (pending (m.set i { e with depth := d }) (pushChildren e.children (d + 1) wl)).length < fuel := by
+          have := hperm.length_eq
+          simp only [List.length_cons] at this
+          omega
+        apply ih _ _ ?_ hlen'
+        refine ⟨(List.nodup_cons.mp hnd).2, ?_, ?_⟩
+        · intro x hx
+          have hxi : x ≠ i := fun e => hni (e ▸ hx)
+          have hxold : x ∈ pending m ((i, d) :: wl) := hperm.mem_iff.mpr (List.mem_cons_of_mem _ hx)
+          obtain ⟨ex, hex, hex0⟩ := inv.unvisited x hxold
+          refine ⟨ex, ?_, hex0⟩
+          rw [List.getElem?_set_ne (Ne.symm hxi)]; exact hex
+        · intro x hx
+          rcases mem_pushChildren hx with ⟨hx2, _⟩ | hx
+          · omega
+          · exact inv.depthPos x (List.mem_cons_of_mem _ hx)
+
+theorem flatMap_congr_index {α β γ : Type} (f : α → List γ) (g : β → List γ) :
+    ∀ (a : List α) (b : List β), a.length = b.length →
+      (∀ i (h1 : i < a.length) (h2 : i < b.length), f a[i] = g b[i]) → a.flatMap f = b.flatMap g := by
+  intro a
+  induction a with
+  | nil => intro b hl _; cases b with
+    | nil => rfl
+    | cons _ _ => simp at hl
+  | cons x xs ih =>
+    intro b hl h
+    cases b with
+    | nil => simp at hl
+    | cons y ys =>
+      simp only [List.flatMap_cons]
+      have h0 := h 0 (by simp) (by simp)
+      simp only [List.getElem_cons_zero] at h0
+      rw [h0, ih ys (by simpa using hl)]
+      intro i h1 h2
+      have := h (i + 1) (by simp; omega) (by simp; omega)
+      simpa using this
+
+/-- After steps 1–2 the work list invariant holds and the pending list is no longer than the
+number of subintents. -/
+theorem tinv_init {t : Tree} {m2 : List Details} {rootCs : List Nat}
+    (s2 : S2 t (allClaims t) m2) (hco : ChildrenOK t m2 t.subs.length)
+    (hrc : rootCs.map (hashAt m2) = t.rootChildren.map some) :
+    TInv m2 (pushChildren rootCs 1 []) ∧ (pending m2 (pushChildren rootCs 1 [])).length ≤ t.subs.length := by
+  have hfilter : m2.filter (fun e => e.depth == 0) = m2 := by
+    apply List.filter_eq_self.mpr
+    intro e he; simp [s2.depth0 e he]
+  have hpend : pending m2 (pushChildren rootCs 1 []) = rootCs.reverse ++ m2.flatMap (·.children) := by
+    simp [pending, pendingOf, pushChildren, hfilter, Function.comp_def]
+  -- the keys of the pending entries are exactly the declared children
+  have hkeys : (rootCs ++ m2.flatMap (·.children)).map (hashAt m2) = (allClaims t).map some := by
+    rw [List.map_append, hrc, List.map_flatMap]
+    unfold allClaims
+    rw [List.map_append, List.map_flatMap]
+    congr 1
+    apply flatMap_congr_index _ _ m2 t.subs s2.good.length
+    intro i h1 h2
+    exact hco i h1 h2 h2
+  have hnd0 : (rootCs ++ m2.flatMap (·.children)).Nodup := by
+    apply nodup_of_map (hashAt m2)
+    rw [hkeys]
+    simp only [List.Nodup, List.pairwise_map]
+    exact s2.clNodup.imp (fun {a b} hab e => hab (Option.some.inj e))
+  have hvalid : ∀ x ∈ rootCs ++ m2.flatMap (·.children), x < m2.length := by
+    intro x hx
+    have : hashAt m2 x ∈ (allClaims t).map some := by
+      rw [← hkeys]; exact List.mem_map.mpr ⟨x, hx, rfl⟩
+    obtain ⟨h, _, heq⟩ := List.mem_map.mp this
+    unfold hashAt at heq
+    cases hmx : m2[x]? with
+    | none => rw [hmx] at heq; cases heq
+    | some e => exact (List.getElem?_eq_some_iff.mp hmx).1
+  have hperm : (rootCs.reverse ++ m2.flatMap (·.children)).Perm (rootCs ++ m2.flatMap (·.children)) :=
+    List.Perm.append_right _ (List.reverse_perm _)
+  refine ⟨⟨?_, ?_, ?_⟩, ?_⟩
+  · rw [hpend]; exact hperm.nodup_iff.mpr hnd0
+  · intro x hx
+    rw [hpend] at hx
+    have hlt := hvalid x (hperm.mem_iff.mp hx)
+    exact ⟨m2[x], List.getElem?_eq_getElem hlt, s2.depth0 _ (List.getElem_mem hlt)⟩
+  · intro x hx
+    rcases mem_pushChildren hx with ⟨hx2, _⟩ | hx
+    · omega
+    · cases hx
+  · rw [hpend, hperm.length_eq, ← s2.good.length]
+    have hsub : (rootCs ++ m2.flatMap (·.children)) ⊆ List.range m2.length := by
+      intro x hx; exact List.mem_range.mpr (hvalid x hx)
+    have := (List.subperm_of_subset hnd0 hsub).length_le
+    simpa using this
 
 end Radix.IntentTree
